@@ -35,6 +35,12 @@ def solve(tag, cases, jobs=8, timeout=3000):
 
 def qualifier(inv, case, rec):
     """Refines a finding key by the generator stratum that is known to trigger a recorded defect."""
+    if case.get('init') and inv in ('PlacesAndWindows', 'ScheduleDepartures', 'ScheduleArrivals', 'TourStat', 'TourCost', 'OverallStat'):
+        # seeded runs: the initial solution reader pins an offset break to the moment it had in the seed
+        offset = any(isinstance(b.get('time'), list) and b['time'] and not isinstance(b['time'][0], str) or isinstance(b.get('time'), dict) and not isinstance(b['time'].get('earliest'), str)
+                     for v in case['problem']['fleet']['vehicles'] for sh in v['shifts'] for b in sh.get('breaks') or [])
+        if offset:
+            return 'seeded-with-offset-break'
     if inv == 'Reach':
         return 'pairwise-unreachable' if case.get('unreach_mode') == 'pairwise' else 'location-unreachable'
     if inv == 'LimitDuration':
@@ -120,8 +126,20 @@ def run(pid, tier):
             if rc:
                 rel_cases.append(rc)
     rel_out = solve(pid + '-b', rel_cases, jobs=10) if rel_cases else {}
-    cases_by_id = {c['id']: c for c in cases + rel_cases}
+    # third pass: the same problems solved again, seeded with the solution just returned (read back as initial solution)
+    init_cases = []
+    for c in cases:
+        o = outcomes[c['id']]
+        if o['status'] == 'ok' and o['solution'].get('tours') and rnd.random() < 0.3:
+            ic = copy.deepcopy(c)
+            ic['id'] = c['id'] + 'i'
+            ic['init'] = o['solution']
+            ic['config']['termination'] = {'maxGenerations': rnd.choice([0, 1, 3]) or 1, 'maxTime': 30}
+            init_cases.append(ic)
+    init_out = solve(pid + '-i', init_cases, jobs=10) if init_cases else {}
+    cases_by_id = {c['id']: c for c in cases + rel_cases + init_cases}
     outcomes.update(rel_out)
+    outcomes.update(init_out)
 
     status = collections.Counter(o['status'] for o in outcomes.values())
     recs, unsupported, not_ok = [], collections.Counter(), []
@@ -191,7 +209,7 @@ def run(pid, tier):
                      'unassigned': [u['job'] for u in sample['unassigned']], 'config': cases_by_id[sample['id']]['config']}],
         'invariants_judged': sorted(mine), 'invariants_failed_of_other_properties': dict(others),
         'solver_status': dict(status), 'not_ok_runs_not_judged_here': not_ok[:5], 'unsupported_projection': dict(unsupported),
-        'relation_cases': len(rel_cases), 'feature_counts': dict(feats),
+        'relation_cases': len(rel_cases), 'seeded_cases': len(init_cases), 'feature_counts': dict(feats),
         'canaries': {'applied': canary_total, 'rejected': canary_rejected},
         'known_finding_hits': {k: len(v) for k, v in verdict.known_hits.items()},
         'tlc_wall_s': round(res.wall, 1),
